@@ -2,7 +2,7 @@
 
 Streams
   poly-programs   random programs over BinaryPolynomial objects (string / sequence / integer
-                  constructors, + * ** shift, in-place forms, numpy integers, `a += a`), every
+                  constructors, + * ** shift, in-place forms, numpy integers, `a += a`, `q = p ** k; q += r`), every
                   variable compared exactly with the Lean Model after every statement; Spec
                   oracle: the result denotes the GF(2) function the statement promises
                   (all assignments of the support), canonical monomials, evaluate().
@@ -32,8 +32,8 @@ OPEN_STATEMENTS = [
     'extractor_sound / dissolve_sound / binary_code_transform_sound (action of the transformed operator on encoded states) and '
     'bct_jw_eq_jw / bct_bk_eq_bk: not proved; covered by the transform stream (Model correspondence + Spec oracle on every '
     'encoded domain state + term-for-term comparison with jordan_wigner / bravyi_kitaev)',
-    'soundness of the constructors BinaryPolynomial(str) / BinaryPolynomial(list) (parse paths) and Shaped for the composite '
-    'constructors: covered by the poly-programs / codes streams only',
+    'soundness of the constructor BinaryPolynomial(list of tuples) (BinaryPolynomial(str) is proved: string_constructor_sound) and '
+    'Shaped for the composite constructors: covered by the poly-programs / codes streams only',
 ]
 TRUSTED = [
     'C09: string tokenisation of BinaryPolynomial(str) (str.split / isdigit / int) is done by the harness '
@@ -743,6 +743,7 @@ def rand_cexpr(rng, depth, max_modes):
 
 SPECIAL_CODES = [
     # a concatenation whose outer decoder has a component without terms, concatenated again
+    # (these left an int in the decoder before the fix a441cb87)
     ['concat', ['concat', ['checksum', 3, False], ['checksum', 2, False]], ['jw', 1]],
     ['concat', ['concat', ['checksum', 4, False], ['checksum', 3, False]], ['bk', 2]],
     ['concat', ['checksum', 4, False], ['checksum', 3, False]],
@@ -952,35 +953,13 @@ def check_transform(ctx, stream, cases):
 # ------------------------------------------------------------------ known findings
 
 def classify(v):
+    """only the listed known finding: the literal decoder of weight_two_segment_code"""
     d = v.get('detail', {})
     what = v.get('what', '')
-    if what.startswith('building the code raised ValueError') and d.get('expr') == ['parity', 1]:
-        return 'C09-parity-code-1'
-    if what.startswith('decoder component is not a BinaryPolynomial') and 'int0' in d.get('decoder', []) \
-            and not any(isinstance(x, str) and x != 'int0' for x in d.get('decoder', [])):
-        return 'C09-int-decoder-component'
-    if what.startswith('binary_code_transform raised AttributeError') and d.get('int_in_decoder'):
-        return 'C09-int-decoder-component'
-    if what.startswith('building the code raised AttributeError') and _has_zero_component_concat(d.get('expr')):
-        return 'C09-int-decoder-component'
-    if 'does not denote the GF(2) function' in what and d.get('alias') and d.get('statement', [None])[0] == 'iadd':
-        return 'C09-iadd-alias'
-    if 'which is not its target' in what and d.get('same_object_as_target'):
-        return 'C09-pow-alias'
     if (what.startswith('decode(encode v) != v') or what.startswith('transformed operator acts differently')) \
             and _contains(d.get('expr'), 'w2seg'):
         return 'C09-w2seg-decoder'
     return None
-
-
-def _has_zero_component_concat(e):
-    """syntactic: a concatenation whose left operand is itself a concatenation (the only way an
-    int decoder component can arise) occurs inside the expression"""
-    if not isinstance(e, (list, tuple)) or not e:
-        return False
-    if e[0] == 'concat' and isinstance(e[1], (list, tuple)) and _contains_concat(e[1]):
-        return True
-    return any(_has_zero_component_concat(x) for x in e[1:] if isinstance(x, (list, tuple)))
 
 
 def _contains(e, name):
@@ -989,50 +968,14 @@ def _contains(e, name):
     return e[0] == name or any(_contains(x, name) for x in e[1:] if isinstance(x, (list, tuple)))
 
 
-def _contains_concat(e):
-    if not isinstance(e, (list, tuple)) or not e:
-        return False
-    return e[0] == 'concat' or any(_contains_concat(x) for x in e[1:] if isinstance(x, (list, tuple)))
-
-
 def probe_known(ctx, k):
     """replay the witness of a listed finding on the real code: True while it still fails"""
-    of = ctx.of
     from openfermion.transforms.opconversions import binary_codes as bc
-    from openfermion.transforms.opconversions.binary_code_transform import binary_code_transform
-    if k['id'] == 'C09-parity-code-1':
-        try:
-            c = bc.parity_code(1)
-            return not (c.n_modes == 1 and c.n_qubits == 1)
-        except Exception:  # noqa: BLE001
-            return True
-    if k['id'] == 'C09-int-decoder-component':
-        try:
-            c = (bc.checksum_code(3, 0) * bc.checksum_code(2, 0)) * bc.jordan_wigner_code(1)
-            q = binary_code_transform(of.FermionOperator('2^ 2'), c)
-            return len([t for t, x in q.terms.items() if abs(x) > 1e-12]) != 0
-        except Exception:  # noqa: BLE001
-            return True
-    if k['id'] == 'C09-pow-alias':
-        try:
-            p = of.BinaryPolynomial('w0')
-            q = p ** 2
-            q += 1
-            return len(p.terms) != 1
-        except Exception:  # noqa: BLE001
-            return True
     if k['id'] == 'C09-w2seg-decoder':
         try:
             c = bc.weight_two_segment_code()
             w = [int(x) % 2 for x in c.encoder.dot([0, 0, 0, 0, 1])]
             return [int(d.evaluate(w)) for d in c.decoder] != [0, 0, 0, 0, 1]
-        except Exception:  # noqa: BLE001
-            return True
-    if k['id'] == 'C09-iadd-alias':
-        try:
-            a = of.BinaryPolynomial('w0 + w1 + w2')
-            a += a
-            return len(a.terms) != 0
         except Exception:  # noqa: BLE001
             return True
     return False
